@@ -224,13 +224,37 @@ def _f_sp(sigma, ctx):
     return f if c > 0 else Not(f)
 
 
-def f_pos(t, ctx):
+def _int_len_poly(t):
+    """c0 + sum(ci * len(Xi)) with integer coefficients (and at least one length): an integer"""
+    if not t.is_poly() or not t.num:
+        return False
+    seen = False
+    for m, c in t.num.items():
+        if c.denominator != 1:
+            return False
+        if len(m) == 0:
+            continue
+        if len(m) != 1:
+            return False
+        (a, e), = m
+        if e != 1 or not (isinstance(a, tuple) and len(a) == 2 and a[0] == "nn" and hasattr(a[1], "key") and isinstance(a[1].key, tuple) and a[1].key and a[1].key[0] == "len"):
+            return False
+        seen = True
+    return seen
+
+
+def f_pos(t, ctx, _oriented=False):
     """formula for  t > 0"""
     t = lift(t)
     if t.is_zero():
         return False
     if t.is_const():
         return t.const_value() > 0
+    if not _oriented and _int_len_poly(t):
+        # over the integers  t > 0  is  not (1 - t > 0): one atom for a question and its negation, whichever way round it was asked
+        lead = sorted(((repr(m), c) for m, c in t.num.items() if len(m)), key=lambda x: x[0])[0][1]
+        if lead < 0:
+            return Not(f_pos(RF.const(1) - t, ctx, True))
     # bring the denominator up when its sign is known
     if not t.is_poly():
         if len(t.den) == 1 and RF(dict(t.den)).is_nonneg():
